@@ -98,6 +98,16 @@ def extract_lazy(cls, lazy_attr, init_name="_lazy_init"):
             if isinstance(s, ast.If):
                 t = ast.unparse(s.test)
                 if t.endswith("is None") and len(s.body) == 1 and isinstance(s.body[0], ast.Return) and not s.orelse:
+                    left = s.test.left if isinstance(s.test, ast.Compare) else None
+                    ls = ast.unparse(left) if left is not None else ""
+                    if isinstance(left, ast.Name):
+                        pass                                   # tests the value read before
+                    elif lazy_attr in ls and "__dict__" in ls and ".get(" in ls:
+                        P.emit("read", lazy_attr, "v", "dict", ln)     # the test reads the shared slot itself
+                    elif left is not None and _is_self_attr(left, lazy_attr, selfi):
+                        P.emit("read", lazy_attr, "v", "attr", ln)
+                    else:
+                        raise Unsupported("early return on an unrecognised test: %s" % t)
                     # early return releases the enclosing locks
                     j = P.emit("ret_if_none", "v", None, tuple(reversed(locks)), ln)
                     end_fix.append(j)
